@@ -34,7 +34,7 @@ STARTS = (32768, 40000, 0x6000, 16384, 'top', 'top')
 # ----------------------------------------------------------------------------------------------
 # documents from the specification (pattern C)
 # ----------------------------------------------------------------------------------------------
-SIM_CFGS = ('CtlDoc_sim.cfg', 'CtlDoc_sim2.cfg', 'CtlDoc_sim.cfg', 'CtlDoc_sim3.cfg')
+SIM_CFGS = ('CtlDoc_sim.cfg', 'CtlDoc_sim2.cfg', 'CtlDoc_sim.cfg', 'CtlDoc_sim3.cfg', 'CtlDoc_sim4.cfg')
 
 
 def sim_worker(args):
